@@ -459,6 +459,39 @@ Definition chk_pst (ub : bool) (t : tree) (impl_ok : bool) (impl : list node) : 
         | Reject _, Reject _ => true
         | _, _ => false end)].
 
+(* ---- text -> pair tree: the PEG model on the regenerated grammar vs pest's own output ---- *)
+Require Import Peg gen.Grammar.
+Fixpoint tree_eqb (a b : tree) : bool :=
+  match a, b with
+  | T r1 s1 k1, T r2 s2 k2 =>
+      String.eqb r1 r2 && String.eqb s1 s2 &&
+      (fix go (l1 l2 : list tree) : bool :=
+         match l1, l2 with
+         | [], [] => true
+         | x :: l1', y :: l2' => tree_eqb x y && go l1' l2'
+         | _, _ => false
+         end) k1 k2
+  end.
+(* bytes outside printable ASCII, tab, LF and CR become '?' on both sides (the case files stay
+   plain ASCII); the comparison is on byte strings *)
+Definition san_ascii (c : ascii) : ascii :=
+  let n := nat_of_ascii c in
+  if (Nat.leb 32 n && Nat.leb n 126) || Nat.eqb n 10 || Nat.eqb n 9 || Nat.eqb n 13 then c else "?"%char.
+Fixpoint san_str (s : string) : string :=
+  match s with EmptyString => EmptyString | String c r => String (san_ascii c) (san_str r) end.
+Fixpoint san_tree (t : tree) : tree :=
+  match t with T r s k => T r (san_str s) (map san_tree k) end.
+Definition bytes_of (codes : list N) : list ascii := map (fun n => ascii_of_N n) codes.
+(* 1: the model and pest agree (same pair tree, or both reject); 0: they differ; 2: fuel *)
+Definition chk_peg (codes : list N) (dump : option tree) : N :=
+  match parse_with idl_grammar (bytes_of codes), dump with
+  | ROk [] [t], Some d => b2n (tree_eqb (san_tree t) d)
+  | RFuel, _ => 2
+  | ROk [] [_], None => 0
+  | _, Some _ => 0
+  | _, None => 1
+  end.
+
 (* ---- C01 / C03 / C04 / C05: classification of the methods of an interface for the L2 runs ---- *)
 (* 0 outside every known class; 2 object-bearing struct value; 3 input object array with a
    single output object; 4 a class multiplicity above 15; 5 a bundle with interior padding *)
